@@ -20,6 +20,28 @@ func vPlainByte(name string) byte {
 // vTextElement: a literal of 1..2 plain characters, or an inline expression of some type.
 // Returns the element and its expected rendering.
 func vTextElement(tag string, st *variable.InMemoryStorer) (*tree.LineFormattedTextElement, string) {
+	el, want, _ := vTextElementRW(tag, st)
+	return el, want
+}
+
+// vTextElementRW also returns, for elements that read a variable, what a host does between two renderings:
+// it writes a new value into the storer; the closure does so and returns the new expected rendering.
+func vTextElementRW(tag string, st *variable.InMemoryStorer) (*tree.LineFormattedTextElement, string, func() string) {
+	el, want := vTextElement0(tag, st)
+	if el.Expression != nil && el.Expression.VariableID != nil && *el.Expression.VariableID == tag {
+		return el, want, func() string {
+			b := vBool(tag + ".b.rewritten")
+			st.SetBooleanValue(tag, b)
+			if b {
+				return "True"
+			}
+			return "False"
+		}
+	}
+	return el, want, nil
+}
+
+func vTextElement0(tag string, st *variable.InMemoryStorer) (*tree.LineFormattedTextElement, string) {
 	switch vChoose(tag+".kind", 9) {
 	case 6: // a literal with an escaped bracket (resolved by the markup pass)
 		c := string([]byte{vPlainByte(tag + ".c0")})
@@ -71,14 +93,34 @@ func vTextElement(tag string, st *variable.InMemoryStorer) (*tree.LineFormattedT
 }
 
 func vLineStatement(tag string, n int, st *variable.InMemoryStorer) (*tree.LineStatement, string) {
+	ls, want, _ := vLineStatementRW(tag, n, st)
+	return ls, want
+}
+
+// vLineStatementRW: also returns the host's rewriting of every variable the line reads (see vTextElementRW).
+func vLineStatementRW(tag string, n int, st *variable.InMemoryStorer) (*tree.LineStatement, string, func() string) {
 	ls := &tree.LineStatement{Text: &tree.LineFormattedText{}}
 	want := ""
+	var parts []string
+	var rws []func() string
 	for i := 0; i < n; i++ {
-		el, w := vTextElement(tag+".e"+vItoa(i), st)
+		el, w, rw := vTextElementRW(tag+".e"+vItoa(i), st)
 		ls.Text.Elements = append(ls.Text.Elements, el)
 		want += w
+		parts = append(parts, w)
+		rws = append(rws, rw)
 	}
-	return ls, want
+	return ls, want, func() string {
+		out := ""
+		for i, rw := range rws {
+			if rw != nil {
+				out += rw()
+			} else {
+				out += parts[i]
+			}
+		}
+		return out
+	}
 }
 
 func vRunnerOver(st *variable.InMemoryStorer, stmts ...*tree.Statement) *DialogueRunner {
@@ -100,12 +142,25 @@ func vTagsEq(a, b []string) bool {
 // VHLineRendering: a line of ELEMS elements with 0..2 tags.
 func VHLineRendering() {
 	st := variable.NewInMemoryStorer()
-	ls, want := vLineStatement("line", vParam("ELEMS", 2), st)
+	ls, want, rewrite := vLineStatementRW("line", vParam("ELEMS", 2), st)
 	tags := []string{"t1", "t2"}[:vChoose("ntags", 3)]
 	ls.Tags = tags
 	stmt := &tree.Statement{LineStatement: ls}
 	dr := vRunnerOver(st, stmt, stmt) // the same statement is shown twice (as when its node is entered again)
+	if vChoose("fault.first", 2) == 1 {
+		// a line whose inline expression fails after some text was assembled comes first: it is an error, and
+		// nothing of it shows in what is rendered afterwards
+		faulty := &tree.Statement{LineStatement: &tree.LineStatement{Text: &tree.LineFormattedText{Elements: []*tree.LineFormattedTextElement{
+			{Text: "Zz "}, {Expression: vVarExpr("nosuchvariable")}}}}}
+		dr = vRunnerOver(st, faulty, stmt, stmt)
+		el, err := dr.Next(vInt("choice"))
+		vAssert(err != nil && el == nil, "a line whose inline expression fails is an error")
+		vReach("fault-first")
+	}
 	for round := 0; round < 2; round++ {
+		if round == 1 {
+			want = rewrite() // the host wrote new values meanwhile: the line shows them
+		}
 		el, err := dr.Next(vInt("choice"))
 		vAssert(err == nil && el != nil && el.Line != nil, "a line is returned")
 		if err != nil || el == nil || el.Line == nil {
@@ -126,10 +181,12 @@ func VHOptionRendering() {
 	g := &tree.ShortcutOptionStatement{}
 	var wantText []string
 	var wantDisabled []bool
+	var rewrites []func() string
 	bad := false
 	for i := 0; i < n; i++ {
 		tag := "o" + vItoa(i)
-		ls, w := vLineStatement(tag, 1, st)
+		ls, w, rw := vLineStatementRW(tag, 1, st)
+		rewrites = append(rewrites, rw)
 		ls.Tags = []string{tag}
 		switch vChoose(tag+".cond", 5) {
 		case 4: // not <boolean literal>
@@ -156,9 +213,14 @@ func VHOptionRendering() {
 		g.Options = append(g.Options, &tree.ShortcutOption{LineStatement: ls})
 	}
 	stmt := &tree.Statement{ShortcutOptionStatement: g}
+	dr := vRunnerOver(st, stmt, stmt)
 	for round := 0; round < 2; round++ { // the same group is presented twice (as when its node is entered again)
-		dr := vRunnerOver(st, stmt)
-		el, err := dr.Next(vInt("choice"))
+		if round == 1 {
+			for i, rw := range rewrites { // the host wrote new values meanwhile
+				wantText[i] = rw()
+			}
+		}
+		el, err := dr.Next(0) // (second round: chooses option 0, whose body is empty, and goes on to the group again)
 		vAssert((err != nil) == bad, "an option group fails exactly when a condition is not a boolean")
 		if err != nil {
 			vReach("bad-condition")
